@@ -147,6 +147,8 @@ def cells(tier):
         add("date", 2024, 0, ("hour", "minute", "second", "microsecond"), None, "add", 200, md=(2, 29))
         add("datetime", 2024, 0, (), None, "add", 250)
         add("datetime", 2024, 0, ("reltime",), None, "add", 250, md=(12, 31))
+        add("datetime", 2024, 0, ("reltime",), "pos", "add", 250, md=(3, 10))
+        add("date", 2024, 0, ("reltime",), "neg", "add", 250, md=(3, 10))
         return cs
     pats = [(), ("day",), ("month", "day"), ("reltime",), ("hour", "minute", "second", "microsecond"),
             ("year", "month", "day"), ("day", "reltime"), ("month",), ("year",)]
